@@ -2,6 +2,7 @@
 materialised by folding the lookup functions over their whole finite domain
 and compared with the independently derived reference."""
 from . import fold, peval, reference as ref
+from .fold import mk_int as fold_mk_int
 from .fold import TOP, mk_enum, mk_int, mk_bool, to_py
 
 VERSION = "version::Version"
@@ -30,8 +31,9 @@ def mkfolder(f, max_steps=1000000):
     return peval.PEval(f, max_steps=max_steps)
 
 
-def anchor_fn(ctx, rid, f, path, inputs=None, output=None):
-    """resolve a function by def path, then by signature shape; fail closed"""
+def anchor_fn(ctx, rid, f, path, inputs=None, output=None, private=False):
+    """resolve a function by def path, then by signature shape; fail closed (a private helper that is gone is an abstention:
+    the code it held now lives in its callers, which the exact rules evaluate)"""
     fn = f.fn(path)
     if fn is not None:
         ctx.analysed(fn)
@@ -44,6 +46,9 @@ def anchor_fn(ctx, rid, f, path, inputs=None, output=None):
             ctx.analysed(fn)
             ctx.notes.append("%s: anchor %s resolved by signature to %s" % (rid, path, fn.path))
             return fn
+    if private:
+        ctx.abstain(rid, "private helper %s no longer exists: its code is read where it now lives by the exact rules only" % path)
+        return None
     ctx.anchor_missing(rid, path)
     return None
 
@@ -303,16 +308,32 @@ def c03_t3(ctx, f):
         fn = anchor_fn(ctx, rid, f, path, ["&mut qr::QRCode", VERSION], "()")
         if not fn:
             continue
+        unfold = []
         for v in range(1, 41):
-            r = run(F, fn, {VERSION: V(v), "&mut qr::QRCode": TOP})
-            writes = [e for e in r.trace if e["callee"] and ("index_mut" in e["callee"])]
+            # a matrix of the version's size (all modules unknown) so that the writes themselves can be followed
+            F = mkfolder(f)
+            F.record_trace = True
+            q = F.call("qr::QRCode::default", [fold_mk_int("usize", 17 + 4 * v)]) if f.fn("qr::QRCode::default") else None
+            if q is not None and q.kind == "ret" and q.value != TOP:
+                r = F.run(fn.path, args_for(fn, {VERSION: V(v), "&mut qr::QRCode": ("cell", 0)}), cells=[q.value])
+                hv = F.heap.version
+            else:
+                r = run(F, fn, {VERSION: V(v), "&mut qr::QRCode": TOP})
+            writes = [e for e in r.trace if e["callee"] and ("index_mut" in e["callee"] or e["callee"].endswith("::fill"))]
             skipped = r.kind == "ret" and not writes
             exp_skipped = v < first_drawn
+            if r.kind != "ret" and not writes:
+                # the body does not fold and no write was seen: neither drawn nor skipped can be told
+                unfold.append((v, describe(r)))
+                continue
             ctx.check(rid, skipped == exp_skipped, "%s/V%02d" % (fn.path, v), where_fn(fn), fn.path, "V%02d" % v,
                       "pattern is %s for this version but ISO %s it" % (
                           "skipped" if skipped else "drawn", "omits" if exp_skipped else "requires"),
                       expected="skipped" if exp_skipped else "drawn", found="skipped" if skipped else "drawn",
                       sample="%s V%02d: %s" % (path.split("::")[-1], v, "skipped" if skipped else "drawn"))
+        if unfold:
+            ctx.abstain(rid, "%s does not fold for %d version(s) (V%02d ...): %s" % (path.split("::")[-1], len(unfold), unfold[0][0], unfold[0][1]),
+                        where_fn(fn))
 
 
 # ---------------------------------------------------------------------------
@@ -511,8 +532,10 @@ def c07_t1(ctx, f):
     fn = anchor_fn(ctx, rid, f, "polynomials::division")
     if not fn:
         return
-    # the two [u8; 256] constants indexed in `division`; role by index expression
-    roles = {}
+    # every u8 table constant read in `division`; its role (exponent -> value, value -> exponent) is told by its content:
+    # a table that agrees with one of the two GF(256)/0x11D tables on at least 7 entries in 8 is that table, and every
+    # reachable entry must then be right; a table that resembles neither is not a field table (not this rule's business)
+    tables = {}
     for b in fn.blocks:
         if b["cleanup"]:
             continue
@@ -520,35 +543,40 @@ def c07_t1(ctx, f):
             if st["k"] != "assign":
                 continue
             rv = st["rv"]
-            if rv["k"] == "use" and rv["op"]["k"] in ("copy", "move"):
-                p = rv["op"]["p"]
-                idx = [e for e in p["proj"] if isinstance(e, dict) and "idx" in e]
-                if not idx:
-                    continue
-                base = fn.single_def(p["l"], (b["id"], i))
-                if base is None or base.rv is None or base.rv["k"] != "use" or base.rv["op"]["k"] != "const":
-                    continue
-                item = base.rv["op"].get("item")
-                val = base.rv["op"].get("val")
-                if not item or not isinstance(val, list) or len(val) != 256:
-                    continue
-                e = fn.canon_local(idx[0]["idx"], (b["id"], i))
-                from .mir import subexprs
-                is_exp = any(s[0] == "bin" and s[1] == "Rem" and s[3][0] == "K" and s[3][1] == 255 for s in subexprs(e))
-                roles.setdefault("exp" if is_exp else "log", []).append((item, val, st.get("line")))
+            ops = [rv.get("op"), rv.get("a"), rv.get("b")] + list(rv.get("ops") or [])
+            for o in ops:
+                if isinstance(o, dict) and o.get("k") == "const" and o.get("item") and isinstance(o.get("val"), list) and len(o["val"]) >= 255 \
+                        and all(isinstance(x, int) for x in o["val"]):
+                    tables.setdefault(o["item"], (o["val"], st.get("line")))
+    roles = {}
+    for item, (val, line) in sorted(tables.items()):
+        n = len(val)
+        exp_idx = [i for i in range(n) if not (n == 256 and i == 255)]  # [u8; 256] indexed modulo 255: cell 255 is unreachable
+        log_idx = [x for x in range(1, min(n, 256))]  # zero coefficients are skipped (C07.R1): cell 0 is unreachable
+        exp_hits = sum(1 for i in exp_idx if val[i] == ref.GF_EXP[i % 255])
+        log_hits = sum(1 for x in log_idx if val[x] == ref.GF_LOG[x]) if n == 256 else 0
+        if exp_hits * 8 >= len(exp_idx) * 7:
+            roles.setdefault("exp", []).append((item, val, line, exp_idx))
+        elif n == 256 and log_hits * 8 >= len(log_idx) * 7:
+            roles.setdefault("log", []).append((item, val, line, log_idx))
     if len(roles.get("exp", [])) < 1 or len(roles.get("log", [])) < 1:
-        ctx.anchor_missing(rid, "exp/log table lookups in polynomials::division")
+        if tables:
+            ctx.abstain(rid, "the constant tables read in polynomials::division (%s) do not include both an exponent and a logarithm table of "
+                             "GF(256)/0x11D: the field arithmetic is written in a shape this rule does not read" % ", ".join(sorted(tables)),
+                        where_fn(fn))
+        else:
+            ctx.anchor_missing(rid, "exp/log table lookups in polynomials::division")
         return
     for role, lst in roles.items():
-        for item, val, line in lst:
+        for item, val, line, idxs in lst:
             where = "%s:%s" % (fn.file, line)
             if role == "exp":
-                for i in range(255):  # index 255 is unreachable (`% 255`)
-                    ctx.check(rid, val[i] == ref.GF_EXP[i], "%s/exp/%d" % (item, i), where, fn.path, "%s[%d]" % (item, i),
-                              "exponent-to-value table entry is not alpha^i over 0x11D", expected=ref.GF_EXP[i],
+                for i in idxs:
+                    ctx.check(rid, val[i] == ref.GF_EXP[i % 255], "%s/exp/%d" % (item, i), where, fn.path, "%s[%d]" % (item, i),
+                              "exponent-to-value table entry is not alpha^i over 0x11D", expected=ref.GF_EXP[i % 255],
                               found=val[i], sample="%s[%d] = alpha^%d = %d" % (item.split("::")[-1], i, i, val[i]))
             else:
-                for x in range(1, 256):  # index 0 is unreachable (zero coefficients are skipped, C07.R1)
+                for x in idxs:
                     ctx.check(rid, val[x] == ref.GF_LOG[x], "%s/log/%d" % (item, x), where, fn.path, "%s[%d]" % (item, x),
                               "value-to-exponent table entry is not log_alpha(x) over 0x11D", expected=ref.GF_LOG[x],
                               found=val[x], sample="%s[%d] = log %d = %d" % (item.split("::")[-1], x, x, val[x]))
